@@ -404,8 +404,12 @@ Definition sub_rows (h : hp) (o : mobj) (sel : list Z) : pyres (hp * adjacency) 
   | Err e => Err e
   | Ok rows => gcopy_rows (fun m => zmem m sel) fsub h [] rows
   end.
-(* returns the new molecule and the exception raised by its fix_structure/fix_stereo, if any *)
-Definition substructure (ats : list Z) (h : hp) (o : mobj) : pyres (hp * mobj * option pyexn) :=
+(* sub.fix_structure(recalculate_hydrogens); sub.fix_stereo() *)
+Definition sub_finish (rh : bool) : act :=
+  if rh then fix_structure ;; fix_stereo
+  else (calc_labels ;; (fun h o => ok h (set_changed o None))) ;; fix_stereo.
+(* returns the new molecule and the exception raised by its fix_structure/fix_stereo, if any; rh = recalculate_hydrogens *)
+Definition substructure_g (rh : bool) (ats : list Z) (h : hp) (o : mobj) : pyres (hp * mobj * option pyexn) :=
   match ats with
   | [] => Err ValueError
   | _ =>
@@ -415,12 +419,31 @@ Definition substructure (ats : list Z) (h : hp) (o : mobj) : pyres (hp * mobj * 
            | Err e => Err e
            | Ok (h1, sb) =>
                let sa := map (fun n => (n, match zget (o_atoms o) n with
-                                           | Some a => mkA (a_core a) None None
+                                           | Some a => mkA (a_core a) (if rh then None else a_hyd a) None   (* atom.copy(hydrogens=not rh, stereo=True) *)
                                            | None => mkA (mkCore 0 None 0 false) None None end)) sel in
-               Ok ((fix_structure ;; fix_stereo) h1
-                     (mkM sa sb [] None None None None))
+               Ok (sub_finish rh h1 (mkM sa sb [] None None None None))
            end
   end.
+Definition substructure : list Z -> hp -> mobj -> pyres (hp * mobj * option pyexn) := substructure_g true.
+
+(* ---- connected_components (as lists, in the order of their first atom) *)
+Fixpoint closure (adj : adjacency) (cur : list Z) (fuel : nat) : list Z :=
+  match fuel with
+  | O => cur
+  | S f =>
+      let new := filter (fun y => negb (zmem y cur)) (flat_map (fun x => match zget adj x with Some r => keys r | None => [] end) cur) in
+      match new with
+      | [] => cur
+      | _ => closure adj (cur ++ fold_right sadd [] new) f
+      end
+  end.
+Fixpoint comps_from (adj : adjacency) (ks seen : list Z) : list (list Z) :=
+  match ks with
+  | [] => []
+  | k :: t => if zmem k seen then comps_from adj t seen
+              else let c := closure adj [k] (length adj) in c :: comps_from adj t (c ++ seen)
+  end.
+Definition comps (adj : adjacency) : list (list Z) := comps_from adj (keys adj) [].
 
 (* ---- Standardize.standardize() with one rule that matches once: the patch step of __standardize (atom n gets
    charge += dch, bond n-m gets order bo) followed by fix_stereo *)
@@ -514,6 +537,10 @@ Inductive op :=
 | OUnion (rmp cp : bool)            (* self.union(other, remap=, copy=); other = the first of the other live molecules *)
 | OCopy                             (* self.copy(); the result becomes the first of the other live molecules *)
 | OSub (ats : list Z)               (* self.substructure(ats); likewise *)
+| OAnd (ats : list Z)               (* self & ats *)
+| OMinus (ats : list Z)             (* self - ats *)
+| OAug (ats : list Z) (deep : nat)  (* self.augmented_substructure(ats, deep) *)
+| OSplit                            (* self.split(): the parts become live molecules, the last one first *)
 | OSwap                             (* continue with the first of the other live molecules *)
 | OFlush (ks kc : bool)
 | OEnter | OExitOk | OExitExn
@@ -560,6 +587,34 @@ Definition union (rmp cp : bool) (s : state) : state * option pyexn :=
         end
   end.
 
+(* substructure(ats) of the current molecule becomes the first of the other live molecules *)
+Definition sub_step (ats : list Z) (s : state) : state * option pyexn :=
+  match substructure ats (s_heap s) (s_cur s) with
+  | Err e => (s, Some e)
+  | Ok (h, o, None) => (mkS h (s_cur s) (o :: s_others s), None)
+  | Ok (h, _, Some e) => (mkS h (s_cur s) (s_others s), Some e)      (* the half-made object is dropped *)
+  end.
+(* [self.substructure(c, recalculate_hydrogens=False) for c in self.connected_components]; old = the other live molecules before
+   the call (an exception drops the parts made so far) *)
+Fixpoint split_loop (cs : list (list Z)) (s : state) (old : list mobj) : state * option pyexn :=
+  match cs with
+  | [] => (s, None)
+  | c :: t => match substructure_g false c (s_heap s) (s_cur s) with
+              | Err e => (mkS (s_heap s) (s_cur s) old, Some e)
+              | Ok (h, o, None) => split_loop t (mkS h (s_cur s) (o :: s_others s)) old
+              | Ok (h, _, Some e) => (mkS h (s_cur s) old, Some e)
+              end
+  end.
+(* _augmented_substructure: the last of the growing neighbourhoods (sets as lists; only membership matters) *)
+Fixpoint aug_grow (adj : adjacency) (cur : list Z) (deep : nat) : pyres (list Z) :=
+  match deep with
+  | O => Ok cur
+  | S d =>
+      if negb (forallb (fun x => zmem x (keys adj)) cur) then Err KeyError              (* bonds[x] *)
+      else let n := flat_map (fun x => match zget adj x with Some r => keys r | None => [] end) cur ++ cur in
+           if same_keys_z n cur then Ok cur                                            (* if n in nodes: break *)
+           else aug_grow adj n d
+  end.
 Definition step (s : state) (p : op) : state * option pyexn :=
   match p with
   | ORead k => lift (read k) s
@@ -573,11 +628,21 @@ Definition step (s : state) (p : op) : state * option pyexn :=
              | Err e => (s, Some e)
              | Ok (h, o) => (mkS h (s_cur s) (o :: s_others s), None)
              end
-  | OSub ats => match substructure ats (s_heap s) (s_cur s) with
-                | Err e => (s, Some e)
-                | Ok (h, o, None) => (mkS h (s_cur s) (o :: s_others s), None)
-                | Ok (h, _, Some e) => (mkS h (s_cur s) (s_others s), Some e)      (* the half-made object is dropped *)
-                end
+  | OSub ats => sub_step ats s
+  | OAnd ats => sub_step ats s                       (* __and__ = substructure *)
+  | OMinus ats =>                                    (* __sub__: the complement, ValueError when it is everything *)
+      if negb (subset_z ats (keys (o_atoms (s_cur s)))) then (s, Some ValueError)
+      else match filter (fun n => negb (zmem n ats)) (keys (o_atoms (s_cur s))) with
+           | [] => (s, Some ValueError)
+           | c => sub_step c s
+           end
+  | OAug ats deep =>
+      if negb (subset_z ats (keys (o_adj (s_cur s)))) then (s, Some ValueError)
+      else match aug_grow (o_adj (s_cur s)) ats deep with
+           | Err e => (s, Some e)
+           | Ok c => sub_step c s
+           end
+  | OSplit => let s1 := fst (lift (read Kcc) s) in split_loop (comps (o_adj (s_cur s1))) s1 (s_others s1)
   | OSwap => match s_others s with
              | [] => (s, None)
              | o :: t => (mkS (s_heap s) o (s_cur s :: t), None)
